@@ -77,6 +77,9 @@ def run(R, only=None):
                                                  {"__class__": "Probe", "__module__": "verif_canary_pkg", "__loader__": "TypeNode", "__id__": 3}]}, "members": []}],
                  ["roundtrip", ["list", [["ndarray", "<f8", [3], "C", 1, False], ["sparse", "csr", [3, 4], 1]]]],
                  ["after_failed_dump", ["list", [["ndarray", "<f8", [4], "C", 2, False], ["sparse", "csc", [2, 3], 2], ["masked", ["ndarray", "<i8", [3], "C", 3, False], 1]]]]]
+    # cards over one model FILE holding a type that is not trusted by default: with the type trusted (the model object is then
+    # edited through that card), and without (must fail exactly as in a fresh process, whatever was loaded before)
+    fixed_ops += [["card_file", ["values.Plain"], "mutate"], ["card_file", None], ["card_file", ["values.Plain"]], ["card_file", []]]
     batches = only or [{"ops": fixed_ops + gen_ops(rnd, per), "history": fixed_history + gen_ops(rnd, 10), "threads": 8, "seed": rnd.randrange(1 << 30)} for _ in range(nbatch)]
 
     def one(b):
